@@ -684,8 +684,10 @@ Qed.
    LineRows::next_row on the real row and ConvertLineProgram::read_row on its private row, every instruction, the
    SetAddress / ConvertRow states, define_file, any bytes as the program).
    For every header LineProgramHeader::parse can return (hdr_ok; VLIW headers included), both build modes, every
-   program outside the F10 class (known_midseq = false) whose DW_LNE_set_address operands are below the reader's
-   tombstone values (addrs_below: < 2^(8*address_size) - 2): IF the reader's rows() runs to the end and the
+   program outside the F10 class (known_midseq = false) none of whose DW_LNE_set_address operands is the value -2
+   at the address size (addrs_below: operand <> 2^(8*address_size) - 2; the DWARF tombstone -1 IS inside the class:
+   reader and converter both drop such a sequence, rows and end_sequence, and restart — proved as the second mode of
+   the simulation, ConvertLineSim.tomb_stmt): IF the reader's rows() runs to the end and the
    converter's `while let Some(row) = read_row()?` runs to the end, THEN the events are exactly the reader's rows
    (ConvertLineSim.ev_match): erasing the SetAddress events, event k is row k; a Row event has
    address = (last SetAddress of the sequence, 0 if none) + address_offset, op_index, line, column, discriminator,
@@ -694,9 +696,12 @@ Qed.
    row only its end_sequence flag is claimed: the converter swallows the pending address of an empty sequence).
    With C13's meaning of a writer script (address = base + address_offset, other registers verbatim:
    LineWrSeqProofs.meaning) this is "writer script meaning = reader rows".
-   _partial because two clauses are missing: (1) sequences whose DW_LNE_set_address operand IS a tombstone value
-   (-1: skipped by both sides; -2: skipped by the reader only — the converted program carries the same operand and is
-   skipped again when read back) are outside the hypothesis and decided by c12.lineconv / c12.line only;
+   _partial because two clauses are missing: (1) a sequence whose DW_LNE_set_address operand is exactly -2
+   (gimli's reader treats -2 as a tombstone too, the converter only -1): the reader drops it, the converter KEEPS it
+   as a sequence headed by SetAddress(-2) — dropped again by the reader when the converted program is read back — and,
+   if it has no row, as a lone EndSequence(offset) whose address was swallowed (line_convert_tombstone_witnesses shows
+   all three behaviours on the model; c12.lineconv ties them); the general statement for that class (events = reader
+   rows + such ghost sequences) is not proved;
    (2) the last composition step rows(read(write(script))) = meaning(script) is C13's program_roundtrip_v2_v4 / _v5,
    whose hypothesis script_ok (offsets monotone and aligned: provable from line_convert_no_panic's invariant and
    line_convert_error_or_exact; operation advance < 2^64: the VLIW / C13 known findings) is not discharged here. *)
@@ -724,11 +729,120 @@ Example line_convert_sound_script_hyps : forall dbg,
           [(0, 12288); (1, 1); (1, 6); (1, 27); (2, 27); (1, 0); (2, 3)]).
 Proof. exact ConvertLineSim.plain_witness. Qed.
 
+(* line_convert_sound, SCRIPT LEVEL, EVERY operand (clause (1) of the _partial theorem above closed): for every
+   hdr_ok header, both build modes, EVERY program outside the F10 class — no condition on the set_address operands —
+   if rows() and the read_row iteration both run to the end, the events are the reader's rows PLUS ghost sequences
+   (ConvertLineSim.ev_match2 = ev_match extended by two clauses):
+     * a sequence headed by the event SetAddress(2^(8*address_size) - 2) [the -2 value: gimli's reader treats it as a
+       tombstone, the converter does not] with its Row events and its EndSequence corresponds to NO reader row — and
+       the reader drops it again when the converted program is read back, because the operand is carried verbatim;
+     * a lone EndSequence(offset) with no row before it may correspond to no reader row: the source had an EMPTY -2
+       sequence whose pending address the converter swallowed (read back it is an empty sequence [0, offset): a
+       silent but row-less difference, invisible to the dump oracle which drops empty sequences; see notes);
+     * sequences whose operand is the DWARF tombstone -1 produce no event at all, like no reader row.
+   Proof: the simulation has three modes (live / tombstoned on both sides / ghost), Proofs/ConvertLineSim.v sim_both,
+   and an outer induction over the converter's calls with the reader's pending next_row loop (sim_rows2).
+   Still missing for the full line_convert_sound: the composition with C13 (see notes: the end_sequence row of the
+   converted program carries the registers of the previous row, not those of the source's end_sequence row, so the
+   end-to-end equality can only be claimed modulo the non-address registers of end_sequence rows). *)
+Theorem line_convert_sound_script : forall dbg be sx s ls c0 rs evs cf,
+  LineRdMono.hdr_ok (ConvertLine.sh_h s) ->
+  ConvertLine.known_midseq dbg be (ConvertLine.sh_h s) = false ->
+  ConvertLine.cl_new dbg sx s ls = Ok c0 ->
+  LineRd.rows_model dbg be (ConvertLine.sh_h s) = (rs, LineRd.SEnd) ->
+  ConvertLine.events dbg be sx (ConvertLine.sh_h s) c0 = (evs, LineRd.SEnd, cf) ->
+  ConvertLineSim.ev_match2 (ConvertLine.cl_files cf) (ConvertLineSim.mtomb (ConvertLine.sh_h s)) 0 false false evs rs.
+Proof. exact ConvertLineSim.convert_events_sound_all. Qed.
+
+(* ---- clause (2), first half: convert() and C13.
+   line_convert_is_replay: ConvertLineProgram::convert = the read_row iteration replayed through the writer API
+   (set_address / generate_row / end_sequence) — read_row does not depend on the writer calls made in between
+   (Proofs/ConvertLineReplay.v read_loop_reprog); line_convert_replay_is_script: with the identity address conversion
+   that replay is C13's apply_rops on the script script_of(events); line_convert_emits_meaning: composed with C13's
+   script_correct — for a fresh program, if the iteration ends normally and the script satisfies C13's script_ok (it
+   fails exactly in the VLIW / advance-overflow known-finding classes), convert() does not panic, returns Ok or
+   MissingLineEndSequence, and the emitted instructions run on the DWARF state machine (Spec/LineAdvSpec) give exactly
+   C13's meaning of the event script — which line_convert_sound_script relates to the reader's rows of the source.
+   STILL MISSING for the end-to-end line_convert_sound: (a) script_ok is a hypothesis here, not derived from hdr_ok
+   and max_ops = 1; (b) the byte level (LineWr.write / parse_header, C13's program_roundtrip_v2_v4/_v5 with its table
+   hypotheses and define_file interleaving); (c) the equality can only hold modulo the non-address registers of
+   end_sequence rows (end_sequence re-emits the previous row's registers). *)
+Require GV.Proofs.ConvertLineReplay GV.Proofs.LineWrSeqProofs.
+
+Theorem line_convert_is_replay : forall dbg be sx h caddr c,
+  ConvertLine.convert dbg be sx h caddr c =
+  let '(evs, s, cf) := ConvertLine.events dbg be sx h c in
+  match ConvertLineReplay.replay dbg caddr (ConvertLine.cl_prog c) evs with
+  | Ok q' => match s with
+             | LineRd.SEnd => if LineWr.p_in_seq q' then Err CMissingLineEndSequence
+                              else Ok (ConvertLineReplay.reprog q' cf)
+             | LineRd.SErr e => Err e | LineRd.SPanic => Panic | LineRd.SFuel => OutOfFuel
+             end
+  | Err e => Err e | Panic => Panic | OutOfFuel => OutOfFuel
+  end.
+Proof. exact ConvertLineReplay.convert_is_replay. Qed.
+
+Theorem line_convert_replay_is_script : forall dbg evs q,
+  ConvertLineReplay.replay dbg (fun a => Some (LineWr.AConst a)) q evs =
+  LineWrSeqProofs.apply_rops dbg q (ConvertLineReplay.script_of (LineWr.w_op_index (LineWr.p_row q)) evs).
+Proof. exact ConvertLineReplay.replay_is_script. Qed.
+
+Theorem line_convert_emits_meaning : forall dbg be sx h c evs cf,
+  let p := ConvertLine.cl_prog c in
+  LineWr.p_insns p = [] -> LineWr.p_prev p = LineWr.wrow_initial (LineWr.p_enc p) (LineWr.p_lenc p) ->
+  LineWr.p_row p = LineWr.wrow_initial (LineWr.p_enc p) (LineWr.p_lenc p) -> LineWr.p_in_seq p = false ->
+  LineWrProofs.enc_ok (LineWr.p_lenc p) -> (LineWr.e_version (LineWr.p_enc p) <= 5)%N ->
+  ConvertLine.events dbg be sx h c = (evs, LineRd.SEnd, cf) ->
+  LineWrSeqProofs.script_ok (LineWr.p_enc p) (LineWr.p_lenc p)
+    (LineWr.wrow_initial (LineWr.p_enc p) (LineWr.p_lenc p)) false (ConvertLineReplay.script_of 0 evs) ->
+  exists q',
+    ConvertLine.convert dbg be sx h (fun a => Some (LineWr.AConst a)) c =
+      (if LineWr.p_in_seq q' then Err CMissingLineEndSequence else Ok (ConvertLineReplay.reprog q' cf)) /\
+    Forall LineWrProofs.special_ok (LineWr.p_insns q') /\
+    LineAdvSpec.rows_of (LineWr.params_of (LineWr.p_lenc p))
+      (map (LineWr.denote (LineWr.e_version (LineWr.p_enc p))) (LineWr.p_insns q')) =
+      fst (LineWrSeqProofs.meaning (LineWr.e_version (LineWr.p_enc p)) (LineWr.params_of (LineWr.p_lenc p))
+             (LineAdvSpec.init_regs (LineWr.params_of (LineWr.p_lenc p)), 0%N) (ConvertLineReplay.script_of 0 evs)).
+Proof. exact ConvertLineReplay.convert_emits_meaning. Qed.
+
+(* every hypothesis of line_convert_emits_meaning holds for the state ConvertLineProgram::new returns on the
+   two-sequence witness program (script_ok included) *)
+Example line_convert_emits_meaning_hyps : forall dbg,
+  match ConvertLineReplay.plain_c0 dbg with
+  | Some c0 =>
+      let p := ConvertLine.cl_prog c0 in
+      LineWr.p_insns p = [] /\ LineWr.p_prev p = LineWr.wrow_initial (LineWr.p_enc p) (LineWr.p_lenc p) /\
+      LineWr.p_row p = LineWr.wrow_initial (LineWr.p_enc p) (LineWr.p_lenc p) /\
+      LineWr.p_in_seq p = false /\ LineWrProofs.enc_ok (LineWr.p_lenc p) /\ (LineWr.e_version (LineWr.p_enc p) <= 5)%N /\
+      snd (fst (ConvertLine.events dbg true ConvertLineProofs.wit_sx ConvertLineSim.wit_plain c0)) = LineRd.SEnd /\
+      LineWrSeqProofs.script_ok (LineWr.p_enc p) (LineWr.p_lenc p)
+        (LineWr.wrow_initial (LineWr.p_enc p) (LineWr.p_lenc p)) false
+        (ConvertLineReplay.script_of 0 (fst (fst (ConvertLine.events dbg true ConvertLineProofs.wit_sx ConvertLineSim.wit_plain c0))))
+  | None => False
+  end.
+Proof. exact ConvertLineReplay.plain_script_ok. Qed.
+
+(* tombstone operands on the model: -1 is dropped by both sides (inside the theorem's class); -2 is dropped by the
+   reader and kept by the converter (outside); an empty -2 sequence leaves a lone EndSequence *)
+Theorem line_convert_tombstone_witnesses : forall dbg,
+  ConvertLineSim.addrs_below (ConvertLineSim.mtomb (ConvertLineSim.wit_tomb xff))
+    (fst (LineRd.insns_model dbg true (ConvertLineSim.wit_tomb xff))) = true /\
+  ConvertLine.known_midseq dbg true (ConvertLineSim.wit_tomb xff) = false /\
+  ConvertLineSim.tomb_summary dbg (ConvertLineSim.wit_tomb xff) =
+    Some (LineRd.SEnd, [12288; 12291], LineRd.SEnd, [(0, 12288); (1, 0); (2, 3)]) /\
+  ConvertLineSim.addrs_below (ConvertLineSim.mtomb (ConvertLineSim.wit_tomb xfe))
+    (fst (LineRd.insns_model dbg true (ConvertLineSim.wit_tomb xfe))) = false /\
+  ConvertLineSim.tomb_summary dbg (ConvertLineSim.wit_tomb xfe) =
+    Some (LineRd.SEnd, [12288; 12291], LineRd.SEnd,
+          [(0, 4294967294); (1, 1); (2, 6); (0, 12288); (1, 0); (2, 3)]) /\
+  ConvertLineSim.tomb_summary dbg ConvertLineSim.wit_tomb_empty = Some (LineRd.SEnd, [], LineRd.SEnd, [(2, 4)]).
+Proof. exact ConvertLineSim.tombstone_witnesses. Qed.
+
 (* the class predicate is exactly "outside F10 and below the tombstones" *)
 Theorem line_convert_plain_class : forall mt is moved,
-  ConvertLineSim.plain_scan mt is moved =
+  ConvertLineSim.plain_scan true mt is moved =
   negb (ConvertLine.midseq_scan is moved) && ConvertLineSim.addrs_below mt is.
-Proof. exact ConvertLineSim.plain_scan_iff. Qed.
+Proof. exact (ConvertLineSim.plain_scan_iff true). Qed.
 
 (* the two known-finding classes (Model/ConvertLine.v known_midseq = the class of harness/src/c12.rs
    midseq_set_address; known_vliw = maximum_operations_per_instruction > 1), with model witnesses *)
@@ -767,3 +881,6 @@ Check line_convert_midseq_refuted. Check line_convert_vliw_refuted.
 Check line_convert_no_panic. Check line_convert_events_terminate. Check line_convert_new_ok.
 Check line_convert_define_file_safe.
 Check line_convert_sound_script_partial. Check line_convert_plain_class.
+Check line_convert_tombstone_witnesses.
+Check line_convert_sound_script.
+Check line_convert_is_replay. Check line_convert_replay_is_script. Check line_convert_emits_meaning.
